@@ -675,6 +675,7 @@ pub fn gen_base(rng: &mut Rng, p: &Profile, st: &mut GenState) -> ModuleSpec {
                     max: if rng.chance(1, 2) { Some(100 + rng.below(10) as u64) } else { None },
                     shared: false,
                     memory64: false,
+                    page1: false,
                 }));
             }
         }
@@ -717,6 +718,7 @@ pub fn gen_base(rng: &mut Rng, p: &Profile, st: &mut GenState) -> ModuleSpec {
             max: if rng.chance(1, 2) { Some(200 + rng.below(10) as u64) } else { None },
             shared: false,
             memory64: p.multi_memory && rng.chance(1, 5),
+            page1: p.multi_memory && rng.chance(1, 6),
         });
     }
     if p.max_mems > 0 && !p.multi_memory && m.num_mems() > 1 {
@@ -1419,6 +1421,7 @@ impl OpGen<'_> {
                         max: if self.rng.chance(1, 2) { Some(300 + self.rng.below(10) as u64) } else { None },
                         shared: false,
                         memory64: self.p.multi_memory && self.rng.chance(1, 6),
+                        page1: self.p.multi_memory && self.rng.chance(1, 5),
                     },
                     tag: self.tag(),
                 })
@@ -1435,6 +1438,7 @@ impl OpGen<'_> {
                         max: if self.rng.chance(1, 2) { Some(400 + self.rng.below(10) as u64) } else { None },
                         shared: false,
                         memory64: false,
+                        page1: self.p.multi_memory && self.rng.chance(1, 5),
                     },
                     tag: self.tag(),
                 })
